@@ -62,7 +62,7 @@ CondSig(c, item, names, values) ==
   LET T(o) == OTy(o, item, names, values) IN
   CASE c.k = "cmp"     -> { <<"cmp", c.op, T(c.l), T(c.r)>> }
     [] c.k = "between" -> { <<"between", T(c.x), T(c.lo), T(c.hi)>> }
-    [] c.k = "in"      -> { <<"in", T(c.x)>> }
+    [] c.k = "in"      -> { <<"in", T(c.x), IF \E i \in DOMAIN c.xs : T(c.xs[i]) = "blocked" THEN "blocked" ELSE "plain">> }
     [] c.k \in {"and", "or"} -> CondSig(c.l, item, names, values) \cup CondSig(c.r, item, names, values)
     [] c.k = "not"     -> CondSig(c.x, item, names, values)
     [] c.k = "fn"      -> { <<"fn", c.f>> \o [i \in DOMAIN c.args |-> T(c.args[i])] }
@@ -113,10 +113,21 @@ PhMarks(e) ==
   IN (IF used \ supplied # {} THEN { <<"placeholders", "undefined">> } ELSE {})
      \cup (IF unused # {} /\ unused = masked THEN { <<"placeholders", "unused-but-substring-of-the-text">> } ELSE {})
      \cup (IF unused \ masked # {} THEN { <<"placeholders", "unused">> } ELSE {})
-TextSig0(e) == LET ts == Lex(e.text) IN
-              IF e.op = "MatchText" THEN (IF ParseCond(ts).ok THEN CondSig(ParseCond(ts).ast, e.item, e.names, e.values) ELSE { <<"not-a-sentence">> })
+\* value placeholders standing where the grammar wants a name: after a dot (m.:v) and as first argument of if_not_exists;
+\* VasN reads them as names, to NAME that known deviation (the repository's tests use ":hashA.:a")
+VasN(ts) == [i \in DOMAIN ts |->
+               IF ts[i].t = "VALUE" /\ i > 1 /\ (ts[i-1].t = "." \/ (i > 2 /\ ts[i-1].t = "(" /\ IsFn(ts, i - 2, "if_not_exists")))
+               THEN [ts[i] EXCEPT !.t = "NAME"] ELSE ts[i]]
+TextSig0(e) == LET ts == Lex(e.text)
+                   vn == VasN(ts) IN
+              IF e.op = "MatchText"
+              THEN (IF ParseCond(ts).ok THEN CondSig(ParseCond(ts).ast, e.item, e.names, e.values)
+                    ELSE IF vn # ts /\ ParseCond(vn).ok THEN { <<"not-a-sentence", "value-placeholder-as-name">> }
+                    ELSE { <<"not-a-sentence">> })
               ELSE (IF ParseUpdate(ts).ok THEN UpdSig(ParseUpdate(ts).ast, e.item, e.names, e.values)
-                    ELSE IF LaxUpdate(ts) THEN { <<"not-a-sentence", "update-operand-kinds">> } ELSE { <<"not-a-sentence">> })
+                    ELSE IF LaxUpdate(ts) THEN { <<"not-a-sentence", "update-operand-kinds">> }
+                    ELSE IF vn # ts /\ (ParseUpdate(vn).ok \/ LaxUpdate(vn)) THEN { <<"not-a-sentence", "value-placeholder-as-name">> }
+                    ELSE { <<"not-a-sentence">> })
 TextSig(e) == TextSig0(e) \cup TextMarks(e) \cup PhMarks(e)
 \* numbers that a float64 cannot carry (more than 15 significant digits), and decimal fractions in arithmetic
 RECURSIVE NumeralsOf(_)
